@@ -33,6 +33,7 @@ import (
 	"os"
 	"reflect"
 	"regexp"
+	"runtime"
 	"runtime/debug"
 	"sort"
 	"strings"
@@ -71,6 +72,7 @@ type frame struct {
 	Kind string            `json:"kind"`
 	Sub  string            `json:"sub"`
 	F    map[string]string `json:"f"`
+	M    map[string]string `json:"m"` // classes of a Malformed frame (Wire!MalFields)
 }
 
 type scenario struct {
@@ -138,20 +140,65 @@ func init() {
 // ---------------------------------------------------------------------------
 // small pieces of the NUT's environment
 
+// memStore is the PeerMetadataStore of the seqno validator. With yield set (asynchronous validator: every
+// validation runs in a goroutine of its own) the FIRST Get of a goroutine - the optimistic read of the validator,
+// under its read lock - sleeps one virtual millisecond: virtual time only advances when every goroutine of the
+// bubble is blocked, so all validations of one RPC are inside their first read together (the overlap the
+// validator's re-check exists for is forced, not left to luck). Later Gets of the goroutine (the re-check under the
+// write lock) never sleep: a goroutine must not sleep while it holds a lock others wait for.
 type memStore struct {
-	mu sync.Mutex
-	m  map[peer.ID][]byte
+	mu    sync.Mutex
+	m     map[peer.ID][]byte
+	yield bool
+	seen  map[uint64]bool
+	gets  int
+	slept int
+	puts  int
+}
+
+// recheckRefused is the number of validator calls that got as far as the re-check under the write lock and were
+// refused there (a second Get, no Put): only meaningful with yield (every call sleeps exactly once).
+func (s *memStore) recheckRefused() int {
+	if s == nil || !s.yield {
+		return -1
+	}
+	s.mu.Lock()
+	defer s.mu.Unlock()
+	return s.gets - s.slept - s.puts
+}
+
+func goid() uint64 {
+	var b [64]byte
+	n := runtime.Stack(b[:], false)
+	var id uint64
+	fmt.Sscanf(string(b[:n]), "goroutine %d ", &id)
+	return id
 }
 
 func (s *memStore) Get(_ context.Context, p peer.ID) ([]byte, error) {
+	if s.yield {
+		g := goid()
+		s.mu.Lock()
+		fresh := !s.seen[g]
+		s.seen[g] = true
+		if fresh {
+			s.slept++
+		}
+		s.mu.Unlock()
+		if fresh {
+			time.Sleep(time.Millisecond)
+		}
+	}
 	s.mu.Lock()
 	defer s.mu.Unlock()
+	s.gets++
 	return s.m[p], nil
 }
 func (s *memStore) Put(_ context.Context, p peer.ID, v []byte) error {
 	s.mu.Lock()
 	defer s.mu.Unlock()
 	s.m[p] = append([]byte(nil), v...)
+	s.puts++
 	return nil
 }
 
@@ -219,12 +266,17 @@ type run struct {
 	nTestExt  int
 
 	knownID  string
+	tp       *pubsub.Topic
+	store    *memStore
+	prevBase uint64
 	pipeQ    int
 	pipeW    int
 	pipeS    int
 	nmsgs    int
+	dec      string
 	nfresh   int
 	seq      uint64
+	base     uint64
 	hugeLeft int
 	nosign   bool
 }
@@ -256,8 +308,9 @@ func (r *run) build() {
 	}
 	if c["validator"] == "seqno" || c["validator"] == "inline" {
 		// asynchronous by default; "inline" runs it inside the validation worker
+		r.store = &memStore{m: map[peer.ID][]byte{}, seen: map[uint64]bool{}, yield: c["validator"] == "seqno"}
 		opts = append(opts, pubsub.WithDefaultValidator(
-			pubsub.NewBasicSeqnoValidator(&memStore{m: map[peer.ID][]byte{}}, discardLogger(slog.LevelError)),
+			pubsub.NewBasicSeqnoValidator(r.store, discardLogger(slog.LevelError)),
 			pubsub.WithValidatorInline(c["validator"] == "inline")))
 	}
 	if c["valq"] == "small" {
@@ -377,6 +430,7 @@ func (r *run) setup() bool {
 	if err != nil {
 		r.t.Fatalf("c12: join: %v", err)
 	}
+	r.tp = tp
 	sub, err := tp.Subscribe()
 	if err != nil {
 		r.t.Fatalf("c12: subscribe: %v", err)
@@ -486,6 +540,21 @@ func (r *run) wasDelivered(name string) bool {
 	r.mu.Lock()
 	defer r.mu.Unlock()
 	return r.delivered[name]
+}
+
+func (r *run) publishProbe(name string) bool {
+	done := make(chan error, 1)
+	go func() { done <- r.tp.Publish(r.w.Ctx, []byte(name+"|local")) }()
+	select {
+	case err := <-done:
+		if err != nil {
+			return false
+		}
+	case <-time.After(5 * time.Second):
+		return false
+	}
+	hnet.Settle(10 * time.Millisecond)
+	return r.wasDelivered(name)
 }
 
 func (r *run) evalRoundTrip() bool {
@@ -626,11 +695,37 @@ func (r *run) message(f map[string]string, k, i int) *pb.Message {
 		r.rng.Read(m.From)
 	}
 	if n := int(f["seqno"][0] - '0'); n > 0 {
-		r.seq++
+		// the messages of one RPC share a base value (r.base, set per RPC); seqrel says how they relate
+		val := r.base + uint64(i)
+		switch f["seqrel"] {
+		case "descending":
+			val = r.base + 1000 - uint64(i)
+		case "equal", "sameprefix", "prevprefix":
+			val = r.base
+		}
 		full := make([]byte, 9)
 		full[0] = 1
-		binary.BigEndian.PutUint64(full[1:], uint64(time.Now().UnixNano())+r.seq)
+		binary.BigEndian.PutUint64(full[1:], val)
 		m.Seqno = full[9-n:]
+		prefix := func(v uint64) []byte {
+			b := make([]byte, 9)
+			binary.BigEndian.PutUint64(b, v)
+			b[8] = byte(1 + i%250)
+			return b
+		}
+		switch {
+		case f["seqrel"] == "sameprefix" && i > 0:
+			// 9 bytes: the first 8 bytes of message 0 (ONE numeric value for the validator) and a tail of their own
+			// (distinct message ids)
+			b := prefix(r.base)
+			if n >= 8 {
+				copy(b, full[9-n:][:8])
+			}
+			m.Seqno = b
+		case f["seqrel"] == "prevprefix":
+			m.Seqno = prefix(r.prevBase)
+			m.Seqno[8] = byte(251 - i%250)
+		}
 	}
 	switch f["key"] {
 	case "garbage":
@@ -743,6 +838,12 @@ func (r *run) rpc(f map[string]string, k int) []byte {
 		}
 		rpc.Subscriptions = append(rpc.Subscriptions, so)
 	}
+	r.prevBase = r.base
+	if r.prevBase == 0 {
+		r.prevBase = uint64(time.Now().UnixNano())
+	}
+	r.seq += 5000
+	r.base = uint64(time.Now().UnixNano()) + r.seq
 	r.nmsgs = r.countMsgs(f["nmsg"])
 	for i := 0; i < r.nmsgs; i++ {
 		rpc.Publish = append(rpc.Publish, r.message(f, k, i))
@@ -856,10 +957,118 @@ func (r *run) rpc(f map[string]string, k int) []byte {
 	if len(b) > limit {
 		panic(fmt.Sprintf("c12: RPC of %d bytes exceeds the limit", len(b)))
 	}
-	if err := new(pb.RPC).Unmarshal(b); err != nil {
-		panic("c12: built an RPC that does not decode: " + err.Error())
+	if d := decodes(b); d == "no" {
+		panic("c12: built an RPC that does not decode")
 	}
 	return b
+}
+
+// decodes runs the library's decoder on bytes the harness is about to send, inside recover(): the harness must
+// survive a decoder that panics (the node under test is what the frame is for).
+func decodes(b []byte) (res string) {
+	defer func() {
+		if recover() != nil {
+			res = "panic"
+		}
+	}()
+	if new(pb.RPC).Unmarshal(b) == nil {
+		return "yes"
+	}
+	return "no"
+}
+
+// --- Malformed frames: one hand-made field inside one of the 13 message types (Wire!MalFields) ---
+
+var malPath = map[string][]int{"rpc": {}, "subopts": {1}, "message": {2}, "control": {3}, "ihave": {3, 1}, "iwant": {3, 2},
+	"graft": {3, 3}, "prune": {3, 4}, "idontwant": {3, 5}, "extensions": {3, 6}, "peerinfo": {3, 4, 2}, "partial": {10}, "testext": {6492434}}
+
+// a valid known field of each message type (so that the hand-made field sits at an offset > 0)
+var malPre = map[string][]byte{"rpc": {0x0a, 0x00}, "subopts": {0x08, 0x01}, "message": {0x12, 0x01, 'x'}, "control": {0x1a, 0x00},
+	"ihave": {0x0a, 0x01, 't'}, "iwant": {0x0a, 0x01, 'm'}, "graft": {0x0a, 0x01, 't'}, "prune": {0x0a, 0x01, 't'},
+	"idontwant": {0x0a, 0x01, 'm'}, "extensions": {0x50, 0x01}, "peerinfo": {0x0a, 0x01, 'p'}, "partial": {0x0a, 0x01, 't'},
+	"testext": {0x98, 0x06, 0x01}} // TestExtension has no field: an unknown varint field precedes
+
+// a known length-delimited field of each message type, and 3 bytes that are a valid value of it
+var malKnown = map[string]int{"rpc": 2, "subopts": 2, "message": 2, "control": 1, "ihave": 2, "iwant": 1, "graft": 1, "prune": 1,
+	"idontwant": 1, "peerinfo": 1, "partial": 2}
+var malFits = map[string][]byte{"rpc": {0x12, 0x01, 'x'}, "control": {0x0a, 0x01, 't'}}
+
+func (r *run) malformed(m map[string]string) []byte {
+	where := m["where"]
+	num := 15 // unknown in every message type
+	if m["field"] == "known" {
+		n, ok := malKnown[where]
+		if !ok {
+			panic("c12: no known length-delimited field in " + where)
+		}
+		num = n
+	}
+	var pre []byte
+	if m["pre"] == "known" {
+		pre = malPre[where]
+	}
+	tag := func(wt int) []byte { return binary.AppendUvarint(nil, uint64(num)<<3|uint64(wt)) }
+	var fld []byte
+	switch m["wt"] {
+	case "varint":
+		fld = append(tag(0), 0x01)
+	case "fixed64":
+		fld = append(tag(1), 1, 2, 3, 4, 5, 6, 7, 8)
+	case "fixed32":
+		fld = append(tag(5), 1, 2, 3, 4)
+	case "group":
+		fld = append(tag(3), tag(4)...)
+	case "sgroup":
+		fld = tag(3)
+	case "egroup":
+		fld = tag(4)
+	case "illegal":
+		fld = tag(7)
+	case "len":
+		t := tag(2)
+		fits := malFits[where]
+		if fits == nil || m["field"] == "unknown" {
+			fits = []byte("abc")
+		}
+		off := uint64(len(pre) + len(t))
+		const maxInt = uint64(1<<63 - 1)
+		switch m["len"] {
+		case "0":
+			fld = append(t, 0)
+		case "fits":
+			fld = append(append(t, 3), fits...)
+		case "plus1":
+			fld = append(append(t, 4), fits...)
+		case "i31m":
+			fld = binary.AppendUvarint(t, 1<<31-1)
+		case "i31":
+			fld = binary.AppendUvarint(t, 1<<31)
+		case "u32":
+			fld = binary.AppendUvarint(t, 1<<32)
+		case "ovfl": // offset of the field + tag + 9-byte varint + length = 2^63-1 exactly: the largest int
+			fld = binary.AppendUvarint(t, maxInt-off-9)
+		case "ovfl1": // ... = 2^63: wraps
+			fld = binary.AppendUvarint(t, maxInt-off-9+1)
+		case "i63":
+			fld = binary.AppendUvarint(t, 1<<63)
+		case "u64":
+			fld = binary.AppendUvarint(t, ^uint64(0))
+		case "long":
+			fld = append(append(t, 0x80, 0x80, 0x80, 0x80, 0x80, 0x80, 0x80, 0x80, 0x80, 0x80), 0x01)
+		default:
+			panic("c12: unknown length class " + m["len"])
+		}
+	default:
+		panic("c12: unknown wire type class " + m["wt"])
+	}
+	body := append(append([]byte(nil), pre...), fld...)
+	path := malPath[where]
+	for i := len(path) - 1; i >= 0; i-- {
+		w := binary.AppendUvarint(nil, uint64(path[i])<<3|2)
+		w = binary.AppendUvarint(w, uint64(len(body)))
+		body = append(w, body...)
+	}
+	return body
 }
 
 func framed(body []byte) []byte {
@@ -869,7 +1078,7 @@ func framed(body []byte) []byte {
 // bytesOf returns what to write and whether to half-close the stream afterwards.
 func (r *run) bytesOf(fr frame, k int) ([]byte, bool) {
 	mustFail := func(b []byte) []byte {
-		if new(pb.RPC).Unmarshal(b) == nil {
+		if decodes(b) == "yes" {
 			panic("c12: garbage decodes")
 		}
 		return b
@@ -889,7 +1098,7 @@ func (r *run) bytesOf(fr frame, k int) ([]byte, bool) {
 		for {
 			b := make([]byte, 1+r.rng.Intn(300))
 			r.rng.Read(b)
-			if new(pb.RPC).Unmarshal(b) != nil {
+			if decodes(b) != "yes" {
 				return framed(b), false
 			}
 		}
@@ -908,6 +1117,10 @@ func (r *run) bytesOf(fr frame, k int) ([]byte, bool) {
 		return binary.AppendUvarint(nil, 100), true
 	case "Rpc/rpc":
 		return framed(r.rpc(fr.F, k)), false
+	case "Malformed/field":
+		b := r.malformed(fr.M)
+		r.dec = decodes(b)
+		return framed(b), false
 	}
 	panic("c12: unknown frame " + fr.Kind + "/" + fr.Sub)
 }
@@ -931,7 +1144,8 @@ func (r *run) step(k int, fr frame) {
 		hnet.Settle(10 * time.Millisecond)
 		w.Rec.Take()
 	}
-	r.nmsgs = 0
+	r.nmsgs, r.dec = 0, "na"
+	refused0 := r.store.recheckRefused()
 	if fr.Kind == "Tick" {
 		w.Do(M{"a": "hb"})
 	} else if fr.Kind == "Dup" {
@@ -964,7 +1178,13 @@ func (r *run) step(k int, fr frame) {
 	name := fmt.Sprintf("q%d_%d", r.idx, k)
 	r.g.Send(hnet.MsgRPC(r.honestMsg(name)))
 	hnet.Settle(30 * time.Millisecond)
+	refusedByFrame := r.store.recheckRefused() - refused0 // before the probes: what the hostile frame alone did
 	eval := r.evalRoundTrip()
+	// a local Publish must return and reach the node's own subscription (the built-in validators run inside it)
+	pub := false
+	if eval {
+		pub = r.publishProbe(fmt.Sprintf("l%d_%d", r.idx, k))
+	}
 	evs = append(evs, w.Rec.Take()...)
 
 	recv, throttled := 0, false
@@ -1045,10 +1265,11 @@ func (r *run) step(k int, fr frame) {
 	sort.Strings(ss)
 	r.out.emit(M{"e": "frame", "scn": r.idx, "k": k, "fr": fr,
 		"obs": M{"alive": true, "stream": hst, "gstream": gst, "hOut": r.h.InboundAlive() > 0, "gOut": r.g.InboundAlive() > 0,
-			"recv": recv, "eval": eval, "probe": r.wasDelivered(name), "throttled": throttled},
+			"recv": recv, "eval": eval, "pub": pub, "probe": r.wasDelivered(name), "throttled": throttled, "dec": r.dec},
 		"info": M{"bytes": nbytes, "werr": werr, "rerr": herr, "nutInbound": inb, "ev": ks, "sent": ss, "dials": dials,
 			"partialCalls": np, "testExtCalls": nt, "t": hnet.NowMs(),
-			"iasked": iasked, "peerhave": peerhave, "peerdontwant": peerdw, "ticks": ticks, "nmsgs": r.nmsgs}})
+			"iasked": iasked, "peerhave": peerhave, "peerdontwant": peerdw, "ticks": ticks, "nmsgs": r.nmsgs,
+			"seqnoRecheckRefused": refusedByFrame}})
 	if !eval {
 		// the event loop no longer answers: nothing can be shut down cleanly from here
 		os.Exit(5)
@@ -1082,7 +1303,7 @@ func runScenario(t *testing.T, out *lineOut, idx int, s scenario, onlyFrame int)
 			r.step(k, fr)
 		}
 		if onlyFrame < 0 || onlyFrame == len(s.Frames) {
-			r.step(len(s.Frames), frame{Kind: "Tick", Sub: "hb", F: blankOf(s)})
+			r.step(len(s.Frames), frame{Kind: "Tick", Sub: "hb", F: blankOf(s), M: blankM})
 		}
 	})
 }
@@ -1091,6 +1312,7 @@ func runScenario(t *testing.T, out *lineOut, idx int, s scenario, onlyFrame int)
 // from the scenario file: the orchestrator passes it as scenario -1's first frame).
 var blank map[string]string
 var caps map[string]int
+var blankM map[string]string
 
 func blankOf(scenario) map[string]string { return blank }
 
@@ -1154,7 +1376,7 @@ func TestC12(t *testing.T) {
 			if err := json.Unmarshal(sc.Bytes(), &b); err != nil || b.ID != -1 || len(b.Frames) != 1 {
 				t.Fatal("c12: scenario file must start with the blank line")
 			}
-			blank, caps = b.Frames[0].F, b.Caps
+			blank, caps, blankM = b.Frames[0].F, b.Caps, b.Frames[0].M
 			if len(caps) == 0 {
 				t.Fatal("c12: the blank line carries no caps")
 			}
